@@ -34,12 +34,18 @@ ANCHORS = [
 ]
 
 
-def drain(res, b, scenario, extra=None):
+def drain(res, b, scenario, extra=None, one_frame_per_send=True):
     """move the C11 findings of this bench into the result; check OS-level framing"""
     for pid, key, what, w in b.log.violations:
         if pid == "C11":
             res.violation(key, f"{what} [{scenario}]", {"scenario": scenario, "extra": extra, "frame_head": w})
     b.log.violations.clear()
+    if not one_frame_per_send:
+        # the OS took the frames in pieces (short writes): the library rightly calls send() again with the remainder, so the unit
+        # of judgement is the byte STREAM, which the target's parser reassembles and checks
+        res.count("frames-sent-in-pieces", len(b.net.send_calls))
+        b.net.send_calls.clear()
+        return
     for call in b.net.send_calls:
         res.ev()
         ok = len(call) >= 24 and len(call) == 24 + enc.u16(call, 2)
@@ -121,6 +127,46 @@ def run(ctx):
                         res.violation("generic-message-fails", f"generic_message with {n} data bytes ({mode}) -> {out!r:.160}", {"n": n, "mode": mode})
             b.call("close", drv.close)
             drain(res, b, "generic-sweep")
+            # the UDP side: discover() broadcasts ListIdentity datagrams, each of which is one encapsulation frame too
+            st, found = b.call("discover", p.CIPDriver.discover)
+            res.ev()
+            res.seen("udp", "discover", st)
+            if st != "ok" or not isinstance(found, list) or not found:
+                res.violation("discover-finds-nothing", f"CIPDriver.discover() against a target that answers broadcast ListIdentity -> {found!r:.160}", None)
+            res.count("udp-datagrams", b.log.counts.get("udp-datagrams", 0))
+            drain(res, b, "discover")
+            b.close()
+        except ScenarioDead:
+            pass
+    # ---- (2b) the same sweep while the OS takes every frame in pieces (short writes): the byte stream must still be whole frames ----------------
+    if ctx.shard % 2 == 0:
+        try:
+            from vlib import fakesock
+            b = Bench(rng)
+            t, dev = b.simple_target()
+            dev.responder = lambda rq: (0, (), b"ok")
+            import pycomm3 as p
+            drv = p.CIPDriver(b.host + "/bp/0")
+            b.net.schedule = fakesock.RandomSchedule(rng, p_split=0.85, max_chunk=rng.choice([1, 7, 64, 300, 700, 1500]))
+            b.net.call_budget = 400000
+            b.call("open", drv.open)
+            for n in [0, 1, 2, 40, 100, 400, 480, 900, 1400, 2000, 3000, 3900, 3970] + [rng.randrange(0, 3971) for _ in range(10 if quick else 100)]:
+                data = bytes(rng.randrange(256) for _ in range(n))
+                for mode in ("connected", "ucmm", "usend"):
+                    if mode != "connected" and n > 480:
+                        continue
+                    kw = {"connected": True} if mode == "connected" else {"connected": False, "unconnected_send": mode == "usend"}
+                    j0 = len(dev.journal)
+                    st, out = b.call("gm", drv.generic_message, service=rng.randrange(1, 0x7F), class_code=0x64, instance=1, request_data=data, **kw)
+                    res.ev()
+                    res.seen("short-writes", mode, n if n < 64 else 64 + n // 256)
+                    got = dev.journal[-1]["data"] if len(dev.journal) == j0 + 1 else None
+                    if st != "ok" or not out or got is None or (mode != "ucmm" and got != data) or (mode == "ucmm" and not got.startswith(data)):
+                        res.violation("frame-damaged-by-short-writes", f"generic_message with {n} data bytes ({mode}) while the OS accepts at most {b.net.schedule.max_chunk} bytes per send(): "
+                                                                       f"-> {out!r:.120}; the target received {None if got is None else len(got)} request-data bytes", {"n": n, "mode": mode})
+                        break
+            b.call("close", drv.close)
+            drain(res, b, "short-writes", one_frame_per_send=False)
             b.close()
         except ScenarioDead:
             pass
